@@ -223,6 +223,12 @@ def run_property(pid, tier="quick", seed=0, jobs=None):
             continue
         seen_known.add(k)
         lines.append(f"KNOWN-FINDING: property={pid} {f['what']}")
+    # listed findings that no refutation of this run matched (informational: a stale entry, or an
+    # obligation that only runs in the other tier); they suppress nothing by themselves
+    not_observed = [f"{f['obligation']} key={f.get('key')}" for f in known.get("findings", [])
+                    if f["property"] == pid and (f["obligation"], f.get("key")) not in seen_known]
+    for s in not_observed:
+        lines.append(f"NOTE: listed finding not observed in this run ({tier} tier): {s}")
     viol_count = 0
     reported = set()
     for r in violations:
@@ -276,6 +282,7 @@ def run_property(pid, tier="quick", seed=0, jobs=None):
             "bounded_standins": standins,
             "bounded_cases_ok": len(bounded),
             "known_findings": [f["what"] for _, f in known_hits],
+            "known_findings_not_observed": not_observed,
             "undecided": [r["name"] for r in undecided],
             "samples": samples,
             # generic keys (measured): every obligation is one distinct case
